@@ -379,6 +379,10 @@ func (h *History) script() string {
 		ind = "\t"
 	}
 	for i := 0; i < nVars; i++ {
+		if i%2 == 1 { // the same declaration with the zero value written out
+			fmt.Fprintf(&sb, "%svar s%d []%s = nil\n", ind, i, T)
+			continue
+		}
 		fmt.Fprintf(&sb, "%svar s%d []%s\n", ind, i, T)
 	}
 	fmt.Fprintf(&sb, "%sia, ib := 0, 0\n%s_ = ia\n%s_ = ib\n", ind, ind, ind)
